@@ -55,7 +55,8 @@ func panicInfo(stderr string) (string, []string) {
 	return clip(msg, 200), frames
 }
 
-var skipGnetShutdown int32 // set once a child saw GrafanaNet.Shutdown block
+var skipGnetShutdown int32 // set once children saw GrafanaNet.Shutdown block three times
+var gnetHangs int32
 
 func runChild(out, caseFile string, from, to int, tag string, deadline time.Duration) childResult {
 	evf := filepath.Join(out, "adm_ev_"+tag+".ndjson")
@@ -84,7 +85,7 @@ func runChild(out, caseFile string, from, to int, tag string, deadline time.Dura
 			var m map[string]interface{}
 			if json.Unmarshal(l, &m) == nil {
 				res.events = append(res.events, m)
-				if m["gnethang"] == true {
+				if m["gnethang"] == true && atomic.AddInt32(&gnetHangs, 1) >= 3 {
 					atomic.StoreInt32(&skipGnetShutdown, 1)
 				}
 			}
